@@ -1,11 +1,13 @@
 #!/bin/bash
-# usage: trymut.sh <patch> <ID> [<ID>...]  -- applies a seeded change to /repo, runs the checks, reverts.
-patch=$1; shift
-cd /repo || exit 2
-if ! git diff --quiet; then echo "repo dirty"; exit 2; fi
-git apply "$patch" || { echo "patch does not apply"; exit 2; }
+# usage: trymut.sh <patch> <ID> [<ID>...]
+# Applies a seeded change to a scratch copy of /repo (never to /repo itself), runs the checks against
+# the copy (VERIF_REPO) with their output under the scratch directory (VERIF_OUT), removes the copy.
+patch=$(readlink -f "$1"); shift
+S=/var/tmp/verif_trymut.$$
+mkdir -p $S/repo $S/out
+trap 'rm -rf $S' EXIT
+rsync -a --exclude .git /repo/ $S/repo/
+(cd $S/repo && git apply "$patch") || { echo "patch does not apply"; exit 2; }
 for id in "$@"; do
-  (cd /verif && ./check $id 2>&1 | grep -v "^  " | tail -8; echo "exit=$?")
+  (cd /verif && VERIF_REPO=$S/repo VERIF_OUT=$S/out ./check $id 2>&1 | grep -v "^  " | tail -8; echo "exit=${PIPESTATUS[0]}")
 done
-git -C /repo checkout -- .
-git -C /repo status --short | head
